@@ -6,6 +6,7 @@ package main
 import (
 	"bufio"
 	"fmt"
+	"sort"
 	"strings"
 )
 
@@ -1343,14 +1344,60 @@ func genSrvMsg(p *prng, thorough bool, w *bufio.Writer) {
 			if c%3 != 0 {
 				ep = nil // literals without indexing: the verdict does not depend on the dynamic table (F23)
 			}
-			block := g.enc.block(ep, hs)
+			// the block is encoded field by field (the same octets as in one go), so that it can be cut at field boundaries:
+			// whether a message is well-formed does not depend on how its block is spread over HEADERS and CONTINUATION
+			blockOf := func(fields []kv) ([]byte, []int) {
+				var block []byte
+				var bounds []int
+				for _, h := range fields {
+					block = append(block, g.enc.block(ep, []kv{h})...)
+					bounds = append(bounds, len(block))
+				}
+				return block, bounds
+			}
+			// sendBlock writes a block as HEADERS [+ CONTINUATION…]: whole (half of the time), cut at some field boundaries
+			// (possibly with an empty first or last fragment), or cut at arbitrary offsets
+			sendBlock := func(fl byte, block []byte, bounds []int) {
+				var cuts []int
+				switch p.intn(4) {
+				case 2:
+					for _, b := range append([]int{0}, bounds...) {
+						if p.chance(1, 2) {
+							cuts = append(cuts, b)
+						}
+					}
+					if len(cuts) == 0 && len(bounds) > 1 {
+						cuts = []int{bounds[p.intn(len(bounds)-1)]}
+					}
+				case 3:
+					for i := 1 + p.intn(3); i > 0 && len(block) > 0; i-- {
+						cuts = append(cuts, p.intn(len(block)+1))
+					}
+					sort.Ints(cuts)
+				}
+				if len(cuts) == 0 {
+					g.frame(frameBytes(1, fl|4, sid, block))
+					return
+				}
+				prev := 0
+				for i, c := range cuts {
+					if i == 0 {
+						g.frame(frameBytes(1, fl, sid, block[:c]))
+					} else {
+						g.frame(frameBytes(9, 0, sid, block[prev:c]))
+					}
+					prev = c
+				}
+				g.frame(frameBytes(9, 4, sid, block[prev:]))
+			}
+			block, bounds := blockOf(hs)
 			es := bodyLen == 0 && trailers == nil
-			fl := byte(4)
+			fl := byte(0)
 			if es {
 				fl |= 1
 			}
 			g.line("#msg %d hs=%s body=%d trailers=%s", sid, kvHex(hs), bodyLen, kvHex(trailers))
-			g.frame(frameBytes(1, fl, sid, block))
+			sendBlock(fl, block, bounds)
 			if bodyLen > 0 {
 				fl := byte(0)
 				if trailers == nil {
@@ -1359,7 +1406,8 @@ func genSrvMsg(p *prng, thorough bool, w *bufio.Writer) {
 				g.frame(frameBytes(0, fl, sid, []byte("abcde")[:bodyLen]))
 			}
 			if trailers != nil {
-				g.frame(frameBytes(1, 5, sid, g.enc.block(ep, trailers)))
+				tb, tbounds := blockOf(trailers)
+				sendBlock(1, tb, tbounds)
 			}
 			g.done(sid, respGen{status: 200, body: "none"})
 		}
